@@ -76,4 +76,20 @@ theorem C11_current {F : Type} (ext : Ext F) (inputs : List (InputDef F))
   rw [h]
   exact C11_full genCfg ext inTable inputs vdefs decl given calls
 
+/-- the functions that form, coerce and hand on argument values, as the models of C04 / C11 were written against
+them (hash of each, strings and comments stripped).  An edit to any of them breaks this obligation; the
+correspondence then decides (mutating-resolver table of C11, argument streams of C04 / C02). -/
+def pinnedArgSkeleton : List (String × String) := [
+  ("Input.CoerceIn", "114c7466e8b9"),
+  ("List.CoerceIn", "342314fa8b37"),
+  ("NonNull.CoerceIn", "07c35bfdab4c"),
+  ("Root.formArgs", "4ce1628b3fc4"),
+  ("Root.formReflectArgs", "3966a01466f3"),
+  ("Root.replaceArgVars", "8e6170986780"),
+  ("Root.resolveField", "e4c402d21b84"),
+  ("checkReflectArgs", "a983f6c0bc0d")
+]
+
+theorem C04_arg_skeleton_pinned : Gen.argSkeleton = pinnedArgSkeleton := by decide
+
 end Ggql.Args
